@@ -20,6 +20,11 @@ func (o *objectGoSliceReflect) init() {
 
 func (o *objectGoSliceReflect) _putIdx(idx int, v Value, throw bool) bool {
 	if idx >= o.fieldsValue.Len() {
+		if int64(idx) >= math.MaxUint32 {
+			// not an array index (the maximum array length is 2^32-1)
+			o.val.runtime.typeErrorResult(throw, "Can't set property '%d' on Go slice", idx)
+			return false
+		}
 		o.grow(idx + 1)
 	}
 	return o.objectGoArrayReflect._putIdx(idx, v, throw)
